@@ -28,9 +28,12 @@ from harness.tlc import MachineryError
 from ndn import appv2
 from ndn import security as sec
 from ndn.app_support.svs import SvsInst
-from ndn.app_support.svs.tlv import StateVec, StateVecWrapper, StateVecEntry
 
-GROUP = '/grp'
+# group prefix of the instance under test: several components, among them an empty one, a typed one
+# (0x20) and one of type 65536 (sync.py locates the vector relative to the prefix length and the end of
+# the name); all accepted end-to-end by the library (a type-0 component is not: the Interest encoder
+# refuses it). The sibling group keeps a one-component prefix.
+GROUP = [b'\x08\x03ndn', b'\x08\x00', b'\x20\x03svs', b'\xfe\x00\x01\x00\x00\x02g1']
 U = 1.0 / 64            # one tick, exactly representable
 NOSEQ = -1              # spec value of "entry without sequence number"
 NOID = 'none'           # spec value of "entry without node id" (no Name element)
@@ -51,6 +54,72 @@ NODE_NAMES = {
 }
 
 
+# ---- the executor's own TLV code for state vectors (independent of ndn.app_support.svs.tlv, so that a
+# ---- changed library model can neither break the stimuli nor explain away what the instance emits)
+def _varnum(n):
+    if n < 253:
+        return bytes([n])
+    if n < 0x10000:
+        return b'\xfd' + n.to_bytes(2, 'big')
+    if n < 0x100000000:
+        return b'\xfe' + n.to_bytes(4, 'big')
+    return b'\xff' + n.to_bytes(8, 'big')
+
+
+def _tlv(t, v):
+    return _varnum(t) + _varnum(len(v)) + bytes(v)
+
+
+def _uint(n):
+    for w in (1, 2, 4, 8):
+        if n < (1 << (8 * w)):
+            return n.to_bytes(w, 'big')
+    raise ValueError(n)
+
+
+def _read_varnum(b, i):
+    x = b[i]
+    if x < 253:
+        return x, i + 1
+    w = {253: 2, 254: 4, 255: 8}[x]
+    if i + 1 + w > len(b):
+        raise IndexError
+    return int.from_bytes(b[i + 1:i + 1 + w], 'big'), i + 1 + w
+
+
+def _read_tlvs(b):
+    out, i = [], 0
+    while i < len(b):
+        t, i = _read_varnum(b, i)
+        n, i = _read_varnum(b, i)
+        if i + n > len(b):
+            raise IndexError
+        out.append((t, bytes(b[i:i + n])))
+        i += n
+    return out
+
+
+def parse_sv_component(comp):
+    """[(node name TLV bytes | None, seq | None)] of a 0xc9 name component; raises on malformed bytes"""
+    (t, v), = _read_tlvs(bytes(comp))
+    if t != SV_TYPE:
+        raise ValueError(t)
+    entries = []
+    for t, ev in _read_tlvs(v):
+        if t != 0xca:
+            raise ValueError(t)
+        name = seq = None
+        for ft, fv in _read_tlvs(ev):
+            if ft == 0x07:
+                name = _tlv(0x07, fv)
+            elif ft == 0xcc:
+                if len(fv) not in (1, 2, 4, 8):
+                    raise ValueError(len(fv))
+                seq = int.from_bytes(fv, 'big')
+        entries.append((name, seq))
+    return entries
+
+
 class World:
     """One sync group as seen by one instance: the group prefix and the real names of the abstract nodes."""
 
@@ -58,7 +127,7 @@ class World:
         self.group = group
         self.base = enc.Name.normalize(group)
         self.names = {n: [bytes(c) for c in v] for n, v in names.items()}
-        self.by_bytes = {bytes(enc.Name.to_bytes(v)): n for n, v in self.names.items()}
+        self.by_bytes = {_tlv(0x07, b''.join(v)): n for n, v in self.names.items()}
         self.wires = {}
 
     def node_name(self, n):
@@ -72,19 +141,17 @@ class World:
 
     def encode_sv_component(self, entries):
         """entries: list of (id|NOID|ROOTID, seq|NOSEQ) -> name component bytes (TLV 0xc9)."""
-        w = StateVecWrapper()
-        w.val = StateVec()
-        w.val.entries = []
+        body = b''
         for nid, seq in entries:
-            e = StateVecEntry()
+            e = b''
             if nid == ROOTID:
-                e.node_id = []
+                e += _tlv(0x07, b'')
             elif nid != NOID:
-                e.node_id = self.node_name(nid)
+                e += _tlv(0x07, b''.join(self.node_name(nid)))
             if seq != NOSEQ:
-                e.seq_no = seq
-            w.val.entries.append(e)
-        return bytes(w.encode())
+                e += _tlv(0xcc, _uint(seq))
+            body += _tlv(0xca, e)
+        return _tlv(SV_TYPE, body)
 
     def sync_interest(self, p):
         """Wire of a signed sync Interest for spec packet p = {'k':kind, 'es':[{'id','seq'}..]} (memoised:
@@ -116,6 +183,12 @@ class World:
         elif k == 'badname':
             # one component too many between the group prefix and the vector
             name = base + [enc.Component.from_str('x'), enc_sv(es or [('n1', 1)])]
+        elif k in ('seqlen0', 'seqlen3'):
+            # a well-formed entry whose SeqNo element has a length no unsigned integer has (0 or 3 bytes)
+            nm = bytes(enc.Name.to_bytes(self.node_name('n1')))
+            seq = b'\xcc\x00' if k == 'seqlen0' else b'\xcc\x03\x00\x00\x01'
+            entry = bytes([0xca, len(nm) + len(seq)]) + nm + seq
+            name = base + [bytes([SV_TYPE, len(entry)]) + entry]
         elif k == 'unsigned':
             # no signature, hence no parameters digest: the name is one component short
             name = base + [enc_sv(es or [('n1', 1)])]
@@ -134,23 +207,28 @@ class World:
         comp = [c for c in name[len(base):] if enc.Component.get_type(c) == SV_TYPE]
         if len(comp) != 1:
             return {'?': 'no state vector component'}
-        sv = StateVecWrapper.parse(comp[0]).val
+        try:
+            entries = parse_sv_component(comp[0])
+        except (IndexError, ValueError, KeyError):
+            return {'?': 'undecodable state vector'}
         out = {}
-        for e in (sv.entries if sv is not None else []):
-            out[self.node_of(e.node_id)] = e.seq_no
+        for name, seq in entries:
+            out[self.node_of(name) if name is not None else '?noname'] = seq if seq is not None else '?noseq'
         return out
 
 
 WORLD = World(GROUP, NODE_NAMES)
 # a second sync group in the same process: other prefix, other own name, the same peers
 SIBLING = World('/grp2', dict(NODE_NAMES, self=[b'\x08\x03sib']))
+# a peer of the instance under test, in the same group: it knows that instance as node "a"
+PEER = World(GROUP, dict(NODE_NAMES, self=[b'\x08\x04peer'], a=NODE_NAMES['self']))
 QUIET_TICKS = 1 << 20      # intervals of an instance whose timers must never fire during a scenario
 QUIET_TIMER = 64           # what such an instance reports as time left (the open spec does not care)
 
 
 class Scenario:
     def __init__(self, nodes, init_seq=0, sup_ticks=2, sync_ticks=10, rstep=32768, j0=0, world=None, host=None,
-                 quiet=False):
+                 quiet=False, own_app=False):
         """nodes: list of node ids, nodes[0] is this node. sup_ticks/sync_ticks: the configured
         suppression / periodic intervals in ticks. rstep: randbits value per jitter unit.
         host: another Scenario whose session, application and face this instance shares (two SvsInst
@@ -169,6 +247,8 @@ class Scenario:
         self.missing_calls = 0
         self.react = 0
         self.published = False
+        self.rets = []                # values returned by new_data() during the step (applications name data by them)
+        self.cbsaw = []               # local_sv as seen inside on_missing_data during the step
         self.seen = 0
         if host is None:
             self.sess = Session()
@@ -179,8 +259,9 @@ class Scenario:
             self.sess = host.sess
             self.seen = len(host.face.out)
         try:
-            if host is None:
+            if host is None or own_app:
                 self.app, self.face = new_app('v2')
+                self.seen = 0
             else:
                 self.app, self.face = host.app, host.face
             self.inst = SvsInst(self.world.group, self.world.node_name(self.me), self._on_missing,
@@ -192,6 +273,7 @@ class Scenario:
             # the instance announces itself at start; C18 says nothing about that
             self.start_out = self._take_out()
             self.missing_calls = 0
+            self.rets, self.cbsaw = [], []
         except BaseException:
             self.close()
             raise
@@ -199,8 +281,9 @@ class Scenario:
     def _on_missing(self, inst):
         # the application's reaction inside the (non-blocking) callback: self.react publications
         self.missing_calls += 1
+        self.cbsaw.append(self.local())           # what an application reading inst.local_sv in the callback sees
         for _ in range(self.react):
-            inst.new_data()
+            self.rets.append(inst.new_data())
             self.published = True
 
     @property
@@ -226,9 +309,15 @@ class Scenario:
 
     # ---- observation
     def _take_out(self):
-        out = [self.world.decode_emitted(w) for w in self.face.out[self.seen:]]
+        self.last_wires = []                            # (wire, decoded vector) of this step's own Interests
+        out = []
+        for w in self.face.out[self.seen:]:
+            v = self.world.decode_emitted(w)
+            if v is not None:                           # Interests of the other group are not ours
+                out.append(v)
+                self.last_wires.append((w, dict(v)))
         self.seen = len(self.face.out)
-        return [v for v in out if v is not None]        # Interests of the other group are not ours
+        return out
 
     def local(self):
         d = {n: 0 for n in self.nodes}
@@ -251,12 +340,14 @@ class Scenario:
         out = self._take_out()
         m = self.missing_calls
         self.missing_calls = 0
+        rets, self.rets = self.rets, []
+        saw, self.cbsaw = self.cbsaw, []
         full = []
         for v in out:
             d = {n: 0 for n in self.nodes}
             d.update(v)
             full.append(d)
-        return {'local': self.local(), 'out': full, 'missed': m,
+        return {'local': self.local(), 'out': full, 'missed': m, 'ret': rets, 'cbsaw': saw,
                 'state': 'Suppress' if self.inst.state.name == 'SyncSuppression' else 'Steady',
                 'timer': self.timer(), 'seq': self.inst.self_seq}
 
@@ -278,10 +369,18 @@ class Scenario:
             self.sess.loop.settle(timers_now=True)
         return self.post()
 
+    def recv_wire(self, wire):
+        """hand a packet produced elsewhere (a peer's sync Interest) to this instance's application"""
+        self.react, self.published = 0, False
+        exc = deliver(self.sess, self.face, wire, timers_now=False)
+        if exc is not None:
+            raise MachineryError('receive callback raised %r' % exc)
+        return self.post()
+
     def publish(self, n=1, j=0):
         self.r = j * self.rstep
         for _ in range(n):
-            self.inst.new_data()
+            self.rets.append(self.inst.new_data())
         self.sess.loop.settle(timers_now=False)
         # the expiry that was pending has been superseded by the publication; whatever is due
         # now was scheduled by the publication itself (a quiet instance must not run the timers
